@@ -36,6 +36,8 @@ def configs(tier):
                 out.append(dict(eq="glv", species=ns, layout=layout, main=main, deg=2, H=1))
             if ns == 3:   # keys_other listed in non-sorted order
                 out.append(dict(eq="glv", species=ns, layout=layout, main=0, deg=2, H=1, rev=1))
+            # population networks that read their OWN equation parameters (output scaled by the population's growth rate)
+            out.append(dict(eq="glv", species=ns, layout=layout, main=ns - 1, deg=2, H=1, own=1))
     return out
 
 
@@ -137,7 +139,8 @@ def run(cfg, R):
     elif e == "glv":
         ns, layout, main = cfg["species"], cfg["layout"], cfg["main"]
         keys = [f"s{k}" for k in range(ns)]
-        nets = {k: mk_pinn(1, 1, "ODE", deg=deg, H=H) for k in keys}
+        own = cfg.get("own")
+        nets = {k: mk_pinn(1, 1, "ODE", deg=deg, H=H, **(dict(ot=lambda i, o, p: o * p.eq_params["growth_rate"]) if own else {})) for k in keys}
         key_main = keys[main]; keys_other = [k for k in keys if k != key_main]
         if cfg.get("rev"): keys_other = keys_other[::-1]
         dl = GeneralizedLotkaVolterra(key_main=key_main, keys_other=keys_other, Tmax=Tmax)
@@ -156,8 +159,9 @@ def run(cfg, R):
             z = [t_[()]]
             T_ = one if tmax_one else dl_.Tmax[()]
             q = p.eq_params[key_main] if layout == "perkey" else p.eq_params
-            Us = {k: D(p.nn_params[k], z) for k in keys}
-            Um, dUm = Us[key_main], D(p.nn_params[key_main], z, (1,))
+            gr = (lambda k: (p.eq_params[k] if layout == "perkey" else p.eq_params)["growth_rate"][()]) if own else (lambda k: one)
+            Us = {k: mul(D(p.nn_params[k], z), gr(k)) for k in keys}
+            Um, dUm = Us[key_main], mul(D(p.nn_params[key_main], z, (1,)), gr(key_main))
             others = list(keys_other)
             inter = mul(q["interactions"][0], Um)
             for i, k in enumerate(others):
@@ -170,7 +174,7 @@ def run(cfg, R):
             return [add(div(dUm, Um), mul(T_, add(add(neg(q["growth_rate"][()]), neg(inter)), carry)))]
 
         variant = "pairing"
-        name = f"glv/{ns}sp/{layout}/main{main}" + ("/rev" if cfg.get("rev") else "")
+        name = f"glv/{ns}sp/{layout}/main{main}" + ("/rev" if cfg.get("rev") else "") + ("/own-eq-params" if own else "")
     else:
         raise ValueError(e)
 
